@@ -383,6 +383,21 @@ var c08Layers = []string{
 	"apages:s", "apages:l", "arows", "areader",
 	"multi", "merged", "mergedsorted", "buffer",
 	"convertreader", // ConvertRowReader over the rows of the row group: seeks forward only (backward seeks are refused)
+	// row-range views of the row group (row_range.go, hook VerifRowRange): the rows and the pages of a column
+	"range", "rangepages:id", "rangepages:s", "rangepages:l",
+}
+
+// c08Range: the view [off, off+length) a range layer reads (chosen from the variant; never the whole row group)
+func c08Range(total, variant int) (off, length int) {
+	if total < 2 {
+		return 0, total
+	}
+	off = (variant / 4) % total
+	length = 1 + (variant/4/total)%(total-off)
+	if off == 0 && length == total {
+		length--
+	}
+	return off, length
 }
 
 func c08Open(layer string, sc *c08Scenario, variant int) (c08Reader, *c08File, string, error) {
@@ -458,6 +473,17 @@ func c08Open(layer string, sc *c08Scenario, variant int) (c08Reader, *c08File, s
 			return nil, nil, "", fmt.Errorf("ConvertRowReader no longer exposes SeekToRow")
 		}
 		rd = &c08Rows{file: file, r: sk, closer: src}
+	case "range", "rangepages":
+		base := file.RowGroups()[0]
+		off, n := c08Range(int(base.NumRows()), variant)
+		view := parquet.VerifRowRange(base, int64(off), int64(n))
+		if kind == "range" {
+			rows := view.Rows()
+			rd = &c08Rows{file: file, r: rows, closer: rows}
+		} else {
+			itemsCol = col
+			rd = &c08Pages{col: col, pages: view.ColumnChunks()[c08Leaf(file, col)].Pages()}
+		}
 	case "buffer": // the same rows in an in-memory buffer
 		b := parquet.NewBuffer(file.Schema())
 		src := file.RowGroups()[0].Rows()
@@ -496,6 +522,9 @@ func c08Main(args []string) error {
 			}
 			r := newRng(seed ^ uint64(rid)*1315423911 ^ hashString(layer))
 			variant := r.intn(4)
+			if strings.HasPrefix(layer, "range") {
+				variant += 4 * r.intn(64) // which rows the view shows
+			}
 			if sc.Variant != nil {
 				variant = *sc.Variant
 			}
@@ -503,8 +532,20 @@ func c08Main(args []string) error {
 			if err != nil {
 				return fmt.Errorf("scenario %d layer %s: %w", sc.ID, layer, err)
 			}
+			items, rowStart := bf.items[col], bf.rowStart[col]
+			if strings.HasPrefix(layer, "range") {
+				// what a sequential read of the view returns: the items of its rows
+				off, n := c08Range(sumInts(sc.Cfg.PageRows), variant)
+				first := rowStart[off]
+				items = items[first:rowStart[off+n]]
+				rs := make([]int, n+1)
+				for i := range rs {
+					rs[i] = rowStart[off+i] - first
+				}
+				rowStart = rs
+			}
 			tr.begin(ev{"sc": sc.ID, "layer": layer, "variant": variant,
-				"items": ints(bf.items[col]), "rowStart": ints(bf.rowStart[col])})
+				"items": ints(items), "rowStart": ints(rowStart)})
 			for _, op := range sc.Ops {
 				switch op.Op {
 				case "seek":
@@ -512,6 +553,9 @@ func c08Main(args []string) error {
 					// files with two row groups: address either copy of the layout
 					if bf.total > sumInts(sc.Cfg.PageRows) && r.intn(2) == 1 {
 						k += sumInts(sc.Cfg.PageRows)
+					}
+					if strings.HasPrefix(layer, "range") {
+						k %= len(rowStart) // rows of the view, and one past its end
 					}
 					var serr error
 					pan, msg := guard(func() { serr = rd.seek(k) })
